@@ -377,6 +377,41 @@ pub fn run_lockstep(c: &ProgCase, cmp: Compare, ctx: &mut Ctx) -> Result<LockOut
                     format!("segment {seg}: open FOR loops are {:?}, the reference model has {:?}", real_loops, m.loop_vars()),
                 ));
             }
+            // ... and so do the stored scalars (an INPUT, READ or LET whose value is never printed is
+            // still "exactly as an assignment of that value would") and the shapes of the arrays
+            {
+                use abasic_core::VerifValue;
+                let mv = m.vars_sorted();
+                let mut names: Vec<&String> = p.variables.iter().map(|(n, _)| n).chain(mv.iter().map(|(n, _)| n)).collect();
+                names.sort();
+                names.dedup();
+                for n in names {
+                    let real = p.variables.iter().find(|(k, _)| k == n).map(|(_, v)| v.clone());
+                    let model = m.var(n);
+                    let same = match (&real, &model) {
+                        (Some(VerifValue::Num(a)), crate::model::V::N(b)) => a == b || (a.is_nan() && b.is_nan()),
+                        (Some(VerifValue::Str(a)), crate::model::V::S(b)) => a == b,
+                        (None, crate::model::V::N(b)) => *b == 0.0,
+                        (None, crate::model::V::S(b)) => b.is_empty(),
+                        _ => false,
+                    };
+                    if !same {
+                        return Err(v(
+                            "variable-differs",
+                            format!("{}", if n.ends_with('$') { "string" } else { "number" }),
+                            format!("segment {seg}: variable {n} holds {:?}, the reference model has {:?}", real, model),
+                        ));
+                    }
+                }
+                let ra: Vec<(String, Vec<usize>)> = p.arrays.iter().map(|a| (a.name.clone(), a.dimensions.clone())).collect();
+                if ra != m.arrays_sorted() {
+                    return Err(v(
+                        "array-shapes-differ",
+                        format!("real {} model {}", ra.len(), m.arrays_sorted().len()),
+                        format!("segment {seg}: arrays are {:?}, the reference model has {:?}", ra, m.arrays_sorted()),
+                    ));
+                }
+            }
             if p.stack.len() != m.frames_len() {
                 return Err(v(
                     "frame-count-differs",
